@@ -25,11 +25,12 @@
       '(g_q <= g_L && g_q >= (size_t)__CPROVER_POINTER_OFFSET(data)) ==> g_d0[g_q] == g_vq',
       'g_q < (size_t)__CPROVER_POINTER_OFFSET(data) ==> (g_vq != 0 && (g_d0[g_q] == g_vq || (g_d0[g_q] == 0 && C19_WS(g_vq))))',
       '(argc > 0 && g_k < (size_t)argc) ==> (g_sk < g_ek && g_ek < (size_t)__CPROVER_POINTER_OFFSET(data) && argv[g_k] == g_d0 + g_sk)',
+      'argc > 0 ==> (__CPROVER_same_object(argv[0], g_d0) && (size_t)__CPROVER_POINTER_OFFSET(argv[0]) < (size_t)__CPROVER_POINTER_OFFSET(data))',
       '(argc > 0 && g_k < (size_t)argc && g_q == g_ek) ==> (C19_WS(g_vq) && g_d0[g_q] == 0)',
       '(argc > 0 && g_k < (size_t)argc && g_sk <= g_q && g_q < g_ek) ==> (!C19_WS(g_vq) && g_d0[g_q] == g_vq)',
       '(argc > 0 && g_k < (size_t)argc && g_k == 0 && g_q < g_sk) ==> (C19_WS(g_vq) && g_d0[g_q] == g_vq)',
-      '(argc > 0 && g_k + 1 < (size_t)argc) ==> (g_ek < g_sk1 && g_sk1 < (size_t)__CPROVER_POINTER_OFFSET(data))',
-      '(argc > 0 && g_k + 1 < (size_t)argc && g_ek < g_q && g_q < g_sk1) ==> (C19_WS(g_vq) && g_d0[g_q] == g_vq)',
+      '(argc > 0 && g_k < (size_t)argc && g_k + 1 < (size_t)argc) ==> (g_ek < g_sk1 && g_sk1 < (size_t)__CPROVER_POINTER_OFFSET(data))',
+      '(argc > 0 && g_k < (size_t)argc && g_k + 1 < (size_t)argc && g_ek < g_q && g_q < g_sk1) ==> (C19_WS(g_vq) && g_d0[g_q] == g_vq)',
       '(argc > 0 && g_k + 1 == (size_t)argc) ==> g_last_e == g_ek',
       '(g_j < g_argvn && (argc == 0 || g_j >= (size_t)argc)) ==> argv[g_j] == g_aj',
     ],
@@ -53,7 +54,9 @@
  'trusted': ['strchr on the constant string " \\r\\n\\t": cbmc library model (the loop over the 5-byte literal is unwound by constant propagation)'],
  'witness': {'unwind': 12},
 } @*/
+#define C19_SPLIT_PROVER
 #include "c19_tok.h"
+#include "c19_shell_contracts.h"
 size_t g_L;            /* index of the terminator (last byte of the object) */
 size_t g_j, g_argvn;   /* ghost argv index; number of argv slots */
 char *g_aj;            /* old argv[g_j] */
@@ -96,5 +99,9 @@ void harness(void)
     }
     __CPROVER_assert(!(q <= L && q >= g_stop) || cur_q == g_vq, "split: nothing is written at or behind the stop position");
     __CPROVER_assert(!(q <= L) || cur_q == g_vq || (cur_q == 0 && C19_WS(g_vq)), "split: terminators are written only over blanks");
+    /* the contract the shell dispatcher units use instead of the splitter (contracts/c19_shell_contracts.h) */
+    g_sp_k = k;
+    g_sp_vk = (argc > 0 && k < (size_t)argc) ? argv[k] : 0;
+    __CPROVER_assert(C19_SPLIT_POST(argc, data, argv, argcmax), "split: contract clause C19_SPLIT_POST (argc in range, data still a string, argv[k] point into data)");
     CANARY("argvc_internal_split end reachable");
 }
